@@ -36,6 +36,79 @@ def big(n):
     return b'x' * n
 
 
+def accessor_runs(order_len):
+    """ThreadWorker._get_result of the real class under every interleaving with the end of the work: a probe subclass
+    intercepts the reads of `_result` / `_started` / `is_alive()` made by the accessor and, before the i-th of them, drives
+    the child to the i-th phase of the sequence (running: the target waits; recorded: the target has returned and the
+    child sits in `_cleanup`; dead: the thread has ended). Yields (phases, last, outcome)."""
+    import itertools
+    import threading
+    import pyworkers.thread as TH
+    rank = {'r': 0, 'c': 1, 'd': 2}
+    for seq in itertools.product('rcd', repeat=order_len + 1):
+        if any(rank[a] > rank[b] for a, b in zip(seq, seq[1:])):
+            continue
+        go, recorded, release = threading.Event(), threading.Event(), threading.Event()
+
+        def work():
+            go.wait(10)
+            return 7
+
+        state = {'reads': None, 'seq': seq, 'if_line': None}
+
+        class Probe(TH.ThreadWorker):
+            def _cleanup(self):
+                recorded.set()
+                release.wait(10)
+
+            def _drive(self, lineno):
+                # reads made on the line of the condition are its conjuncts, in order; a read on a later line of the accessor
+                # is the final `return self._result`
+                if state['reads'] is None:
+                    return
+                if state['if_line'] is None:
+                    state['if_line'] = lineno
+                if lineno == state['if_line']:
+                    i = state['reads']
+                    state['reads'] = i + 1
+                    want = state['seq'][min(i, order_len - 1)]
+                else:
+                    want = state['seq'][order_len]
+                if want in 'cd':
+                    go.set()
+                    recorded.wait(10)
+                if want == 'd':
+                    release.set()
+                    object.__getattribute__(self, '_child').join(10)
+
+            def __getattribute__(self, name):
+                if name in ('_result', '_started'):
+                    import sys
+                    f = sys._getframe(1)
+                    if f.f_code.co_name == '_get_result':
+                        object.__getattribute__(self, '_drive')(f.f_lineno)
+                return object.__getattribute__(self, name)
+
+            def is_alive(self):
+                import sys
+                f = sys._getframe(1)
+                if f.f_code.co_name == '_get_result':
+                    self._drive(f.f_lineno)
+                return super().is_alive()
+        w = Probe(work)
+        state['reads'] = 0
+        try:
+            r = w._get_result()
+        finally:
+            n_reads = state['reads']
+            state['reads'] = None
+        out = 'none' if r is None else ('own' if r == (True, 7) else ('fabricated' if r == (False, None) else repr(r)))
+        go.set()
+        release.set()
+        w.wait(5)
+        yield ''.join(seq[:order_len]), seq[order_len], out, n_reads
+
+
 def main(ctx: Ctx):
     ctx.assumptions += [
         'E-L1: an exception raised by a trace function at a line event / an asynchronous exception delivered while the trace function spins behaves like an asynchronous exception delivered at that line (CPython 3.12); both modes are exercised',
@@ -47,6 +120,10 @@ def main(ctx: Ctx):
                        'x targets {returns, raises Exception, raises KeyboardInterrupt}; plus undecodable exception, kill while sending a result larger than the pipe buffer; repeated observation; '
                        'non-trivial = an event was injected; distinct by (program, target, k, kind)')
     meta = landing.regenerate(ctx)
+    import translate
+    errors, _ = translate.regenerate_accessor()      # T-acc: Gen/Accessor.lean from ThreadWorker._get_result
+    for e in errors:
+        ctx.broke('translation', 'harness/translate.py (T-acc)', e)
     ctx.lean()
     T = ctx.thorough
     progs = list(inject.KINDS)
@@ -107,6 +184,22 @@ def main(ctx: Ctx):
                 if got != want:
                     ctx.fail(f'outcome-lost:thread:preempted-accessor', f'{clsname}: `{acc}` read while the work was finishing (caller preempted until the child ended): afterwards result={got[0]}, has_error={got[1]} instead of {want}',
                              {'scenario': 'preempted-accessor', 'class': clsname, 'accessor': acc})
+        # ---- the same accessor under EVERY interleaving with the end of the work, compared with the model (Accessor.getResult
+        # on the order of reads regenerated from /repo); the property itself: a recorded outcome is never replaced
+        from common import LEAN
+        import re as _re
+        m_ = _re.search(r'def threadGetResult : List Read := \[(.*?)\]', (LEAN / 'PwVerif' / 'Gen' / 'Accessor.lean').read_text())
+        order_len = len([x for x in m_.group(1).split(',') if x.strip()]) if m_ else 0
+        if order_len:
+            runs = list(accessor_runs(order_len))
+            outs = ctx.model([f'acc r {ps} {last}' for ps, last, _, _ in runs]) or []
+            for (ps, last, got, n_reads), mo in zip(runs, outs):
+                ctx.case(('accessor', ps, last), ps != 'r' * order_len, sample={'case': 'ThreadWorker._get_result, child phase at each read', 'phases': ps, 'at_return': last, 'real': got, 'model': mo} if ps in ('rdd', 'rcd', 'rrr') else None)
+                ctx.cov['traces_validated_against_impl'] += 1
+                if got == 'fabricated':
+                    ctx.fail('outcome-lost:thread:accessor-interleaving', f'ThreadWorker._get_result with the child seen in phases {ps} by its successive reads (r = running, c = outcome recorded, d = dead): a fabricated outcome replaces the recorded one', {'scenario': 'accessor-interleaving', 'phases': ps, 'last': last})
+                if mo != got:
+                    ctx.broke('correspondence', 'Accessor.getResult vs ThreadWorker._get_result', f'phases {ps} then {last}: real {got}, model {mo}')
         # ---- parent-side frontend thread still receiving the result while the remote child is already gone
         import threading
         import pyworkers.remote as R
